@@ -1995,8 +1995,17 @@ class Manager(utils.EventEmitter):
             )
             return
 
-        # Look for a session with this connection, and create one if none exists
-        if not (session := self.sessions.get(connection.handle)):
+        # Look for a session with this connection, and create one if none exists.
+        # A session whose pairing is over (completed or failed) is not reused: a new
+        # Pairing Request starts a new pairing, with a session of its own.
+        session = self.sessions.get(connection.handle)
+        if (
+            session is not None
+            and session.completed
+            and command.code == CommandCode.PAIRING_REQUEST
+        ):
+            session = None
+        if session is None:
             if connection.role == Role.CENTRAL:
                 logger.warning('Remote starts pairing as Peripheral!')
             pairing_config = self.pairing_config_factory(connection)
